@@ -21,7 +21,7 @@ ASSUMPTIONS = ["PrekillHookInvocation's destructor ends the invocation"]
 def run(ctx):
     # locals / parameters the rules below refer to by name (a rename makes the analysis 'broken', never a violation)
     ctx.anchor(ctx.fn1('Oomd::BaseKillPlugin::resumeTryingToKillSomething'), 'candidate', 'nextBestOptionStack')
-    ctx.anchor(ctx.fn1('Oomd::BaseKillPlugin::resumeFromPrekillHook'), 'intendedCandidate', 'intendedVictim', 'sc', 'id')
+    ctx.anchor(ctx.fn1('Oomd::BaseKillPlugin::resumeFromPrekillHook'), 'intendedCandidate', 'intendedVictim')
     ctx.anchor(ctx.fn1('Oomd::Engine::Engine::firePrekillHook'), 'cgroup_ctx')
     ctx.anchor(ctx.fn1('Oomd::Engine::Engine::addDropInConfig'), 'tag')
     ctx.anchor(ctx.fn1('Oomd::Engine::PrekillHook::canRunOnCgroup'), 'pattern')
@@ -190,32 +190,68 @@ def run(ctx):
     ctx.check(paths_ok, "victim-not-signalled-until-done", "never_after", rfp.loc(),
               "no kill continuation on the path where the hook is unfinished and the window open",
               "the deferred victim can be signalled while the hook is still running")
-    # identity check in the re-resolution closure
+    # identity check in the re-resolution closure: a context is handed back only where the cgroup's CURRENT inode id was compared with
+    # the SAVED one (both present) - in the closure itself or in a helper it delegates to with the saved id
+    def resolves_by_id(g, saved, depth=0):
+        """[(ok, node, why)] for every value-returning exit of g; `saved` is the text of the saved id inside g"""
+        out = []
+        fl_ = Flow(P, g, cg=ctx.cg)
+        for r in returns(g):
+            if "val" not in g.nodes[r]:
+                continue
+            for v in value_leaves(g, g.nodes[r]["val"]):
+                t = g.text(v)
+                if "nullopt" in t or t in ("{}", ""):
+                    continue
+                gs = fl_.guards(v) if g.pos_of(v) is not None else fl_.guards(r)
+                ok = False
+                for k, p in gs:
+                    m = re.match(r"^\(\*([\w.>-]+) == \*([\w.>-]+)\)$", k) if (p is True and isinstance(k, str)) else None
+                    if not m or saved not in m.groups():
+                        continue
+                    cur = m.group(1) if m.group(2) == saved else m.group(2)
+                    cur_is_id = False
+                    if re.match(r"^\w+$", cur):
+                        init_, v_ = local_init(g, cur, must=False)
+                        cur_is_id = v_ is not None and init_ is not None and init_ >= 0 and re.search(r"(\.|->)id\((nullptr)?\)$", g.text(init_)) is not None and not local_writes(g, cur, must=False)
+                    else:
+                        cur_is_id = re.search(r"(\.|->)id\((nullptr)?\)$", cur) is not None
+                    has = all(((x_, True) in gs or (x_ + ".has_value()", True) in gs) for x_ in (cur, saved))
+                    if cur_is_id and has:
+                        ok = True
+                if not ok and depth < 2:
+                    # delegation: return H(..., saved, ...)
+                    cn = g.nodes[g.strip(v)]
+                    if cn["k"] == "call" and cn.get("cusr"):
+                        tg = [P.fns[u] for u in P.resolve(cn["cusr"]) if u in P.fns]
+                        idx = [k_ for k_, a_ in enumerate(cn.get("args", [])) if g.text(a_) == saved]
+                        if len(tg) == 1 and len(idx) == 1 and idx[0] < len(tg[0].params) and tg[0].cfg:
+                            ctx.use(tg[0])
+                            sub = resolves_by_id(tg[0], tg[0].params[idx[0]]["name"], depth + 1)
+                            if sub and all(o for o, _, _ in sub):
+                                ok = True
+                            else:
+                                out += [(o, n_, w_) for o, n_, w_ in sub if not o]
+                                continue
+                out.append((ok, (g, r), witness_path(g, fl_, r)))
+        return out
     found = False
     for l in P.lambdas_in(rfp):
-        rets = returns(l)
-        txts = [l.text(l.nodes[r]["val"]) for r in rets if "val" in l.nodes[r]]
-        if not any("addToCacheAndGet" in l.text(x) for x in range(len(l.nodes)) if l.nodes[x]["k"] == "call"):
-            continue
-        if "sc" not in [p["name"] for p in l.params]:
+        scp = [p_["name"] for p_ in l.params if "SerializedCgroupRef" in p_.get("type", "")]
+        if len(scp) != 1 or not any(l.nodes[x]["k"] == "call" and "addToCacheAndGet" in l.text(x) for x in range(len(l.nodes))):
             continue
         found = True
         ctx.use(l)
-        fl = Flow(P, l, cg=ctx.cg)
-        for r in rets:
-            t = l.text(l.nodes[r]["val"]) if "val" in l.nodes[r] else ""
-            if "nullopt" in t:
-                continue
-            g = fl.guards(r)
-            same = any(p is True and re.match(r"^\(\*(id|sc\.id) == \*(id|sc\.id)\)$", k) for k, p in g)
-            has = (("id", True) in g or has_fact(g, True, "id.has_value()")) and (("sc.id", True) in g or has_fact(g, True, "sc.id"))
-            ctx.check(same and has, "re-resolve-by-inode-id", "guarded_by", l.loc(r),
-                      "a serialised cgroup is re-resolved only if path AND inode id match",
-                      "a re-created cgroup (same path, different inode) can be accepted as the deferred victim",
-                      witness_path(l, fl, r))
+        sc = scp[0]
+        res = resolves_by_id(l, sc + ".id")
+        ctx.check(bool(res) and all(o for o, _, _ in res), "re-resolve-by-inode-id", "guarded_by (through helpers)", l.loc(),
+                  "a serialised cgroup is re-resolved only if path AND inode id match",
+                  "a re-created cgroup (same path, different inode) can be accepted as the deferred victim: %s hands back a context without comparing "
+                  "its current id with the saved one" % ", ".join(sorted({g_.pq.replace("Oomd::", "") + " at " + g_.loc(r_) for o, (g_, r_), _ in res if not o})),
+                  next((w_ for o, _, w_ in res if not o), None))
         X = Expander(P, l)
-        for i in l.calls("addToCacheAndGet"):
-            ctx.check(X(l.nodes[i]["args"][0]) == "param:sc.path", "re-resolve-by-saved-path", "provenance", l.loc(i),
+        for i in [x for x in l.calls() if "addToCacheAndGet" in (l.nodes[x].get("cname") or "")]:
+            ctx.check(X(l.nodes[i]["args"][0]) == "param:%s.path" % sc, "re-resolve-by-saved-path", "provenance", l.loc(i),
                       "looked up by the serialised path", "looked up by " + X(l.nodes[i]["args"][0]))
     ctx.check(found, "re-resolution-closure", "anchor", rfp.loc(), "re-resolution closure found", "no closure re-resolving SerializedCgroupRef by path and id")
     # the serialised id is the inode id taken when the hook was fired
@@ -404,8 +440,9 @@ def run(ctx):
                   "a resumed action can run with a context built on the resume tick: the prekill_hook_timeout window "
                   "slides forward while a detector keeps firing", witness_path(impl, fdl, i))
     fires_ctx = [i for i in sac if "prekill_hook_timeout_" in impl.text(impl.nodes[i]["args"][0])]
-    ctx.check(len(fires_ctx) == 1, "deadline-fixed-once-at-firing", "value-shape", impl.loc(fires_ctx[0]) if fires_ctx else impl.loc(),
-              "the deadline is computed at exactly one place (chain firing)", "deadline computed at %d places" % len(fires_ctx))
+    if fires_ctx or firing_edge_in_impl(ctx):
+        ctx.check(len(fires_ctx) == 1, "deadline-fixed-once-at-firing", "value-shape", impl.loc(fires_ctx[0]) if fires_ctx else impl.loc(),
+                  "the deadline is computed at exactly one place (chain firing)", "deadline computed at %d places" % len(fires_ctx))
     # pastPrekillHookTimeout uses the deadline fixed at chain fire and the steady clock
     ppt = ctx.fn1("Oomd::BaseKillPlugin::pastPrekillHookTimeout")
     X = Expander(P, ppt)
